@@ -32,17 +32,17 @@ const (
 )
 
 type rules struct {
-	fs     bool // os.* file functions and os.File -> simos
-	clock  bool // time.Now -> verifsim.Now
-	rand   bool // math/rand.Intn -> verifsim.RandIntn
-	conc   bool // go, channels, select, sync.Mutex/Once/WaitGroup, sync/atomic
-	maps   bool // range over map, maps.Keys/Values
-	procs  bool // runtime.GOMAXPROCS(0) -> verifsim.Procs()
-	graph  bool // loader.Graph -> verifhook.Graph
-	stdio  bool // os.Stdout/os.Stderr -> verifsim.Stdout()/Stderr()
-	yieldAt []string // "Recv.Func": a scheduling point is inserted at function entry (pre-emption points inside long sequential code)
-	regist []string // composite literal types whose address is registered for canonical map keys
-	skip   map[string]bool // file base names not to touch
+	fs      bool            // os.* file functions and os.File -> simos
+	clock   bool            // time.Now -> verifsim.Now
+	rand    bool            // math/rand.Intn -> verifsim.RandIntn
+	conc    bool            // go, channels, select, sync.Mutex/Once/WaitGroup, sync/atomic
+	maps    bool            // range over map, maps.Keys/Values
+	procs   bool            // runtime.GOMAXPROCS(0) -> verifsim.Procs()
+	graph   bool            // loader.Graph -> verifhook.Graph
+	stdio   bool            // os.Stdout/os.Stderr -> verifsim.Stdout()/Stderr()
+	yieldAt []string        // "Recv.Func": a scheduling point is inserted at function entry (pre-emption points inside long sequential code)
+	regist  []string        // composite literal types whose address is registered for canonical map keys
+	skip    map[string]bool // file base names not to touch
 }
 
 var plan = map[string]rules{
@@ -54,7 +54,7 @@ var plan = map[string]rules{
 	"honnef.co/go/tools/lintcmd":           {conc: true, maps: true, stdio: true},
 	"honnef.co/go/tools/go/ir": {conc: true, maps: true, procs: true, regist: []string{"task"},
 		yieldAt: []string{"builder.buildFunction", "builder.stmt", "builder.buildParamsOnly", "builder.buildWrapper", "builder.buildBound", "builder.buildInstantiationWrapper", "builder.buildFromSyntax", "builder.buildYieldFunc", "builder.buildPackageInit", "Function.finishBody", "Function.done", "Function.startBody"}},
-	"honnef.co/go/tools/unused":            {maps: true},
+	"honnef.co/go/tools/unused": {maps: true},
 	// ParseDirectives ranges over an ast.CommentMap: the order of the
 	// directives ends up in the cached results, hence in their content hash
 	// and file name
